@@ -401,6 +401,124 @@ def wl_marginals(rng, rec, tier):
     return {"n": n}
 
 
+def _exact_marginal(tn, output):
+    try:
+        v, sc = refv.value_and_scale(ops_of(tn), exponent_of(tn), tuple(output), MAXREF)
+    except (refv.TooBig, ValueError, MemoryError):
+        return None
+    v = np.asarray(v, dtype=float)
+    z = float(v.sum())
+    if not np.isfinite(z) or z <= 0:
+        return None
+    return v / z
+
+
+def wl_index_marginals(rng, rec, tier):
+    """1-norm hyper BP on positive acyclic hypergraphs (hyper-edges on >= 3 tensors,
+    dangling indices): index marginals and factor marginals read from converged
+    messages, and the probability reported by BP sampling, vs exact sums"""
+    import quimb.tensor.belief_propagation as bp
+    from quimb.tensor.belief_propagation import bp_common
+    flavour = gen.choice(rng, ["hd1bp", "hd1bp", "hv1bp"])
+    uniform = int(rng.integers(2, 4)) if flavour == "hv1bp" or rng.random() < 0.3 else None
+    tn, kind, n = rand_tree_tn(rng, hyper=True, positive=True, uniform=uniform, outer=bool(rng.random() < 0.7),
+                               forest=bool(rng.random() < 0.1))
+    if not is_acyclic(tn):
+        return {"skipped": "cyclic"}
+    desc = {"flavour": flavour, "kind": kind, "n": n,
+            "max_edge": max(len(t) for t in tn.ind_map.values()),
+            "dangling": sum(len(t) == 1 for t in tn.ind_map.values())}
+    what = gen.choice(rng, ["marginals", "marginals", "sample"])
+    desc["what"] = what
+    if what == "marginals":
+        kw = {}
+        if rng.random() < 0.3:
+            kw["damping"] = 0.2
+        if flavour == "hd1bp":
+            b = gen.attempt2(bp.HD1BP, tn, **kw)
+        else:
+            b = gen.attempt2(bp.HV1BP, tn, **kw)
+        if b is gen.REJECTED:
+            return dict(desc, rejected=True)
+        r = gen.attempt2(b.run, max_iterations=300, tol=1e-11)
+        if r is gen.REJECTED or not getattr(b, "converged", False):
+            rec.count("bp", "marginal", "inconclusive_not_converged")
+            return dict(desc, converged=False)
+        msgs = b.messages if flavour == "hd1bp" else gen.attempt2(b.get_messages_dense)
+        if msgs is gen.REJECTED:
+            return dict(desc, rejected=True)
+        got = gen.attempt2(bp_common.compute_all_index_marginals_from_messages, tn, msgs)
+        if got is not gen.REJECTED:
+            for ix in list(tn.ind_map):
+                want = _exact_marginal(tn, (ix,))
+                if want is None:
+                    continue
+                k = len(tn.ind_map[ix])
+                try:
+                    g = np.asarray(to_numpy(got[ix]), dtype=float).reshape(want.shape)
+                    err = float(np.abs(g - want).max())
+                except Exception as e:
+                    err = float("inf")
+                rec.check("bp", "marginal", err <= 1e-6, mech=f"bp:index_marginal:{flavour}:differs_from_exact_on_tree",
+                          detail={"err": err, "ind": ix, "tensors_on_index": k, "n": n},
+                          sig=("index_marginal", flavour, min(k, 3)))
+        for tid in list(tn.tensor_map)[:4]:
+            t = tn.tensor_map[tid]
+            want = _exact_marginal(tn, t.inds)
+            if want is None:
+                continue
+            g = gen.attempt2(bp_common.compute_tensor_marginal, tn, tid, msgs)
+            if g is gen.REJECTED:
+                continue
+            try:
+                g = np.asarray(to_numpy(g), dtype=float).reshape(want.shape)
+                err = float(np.abs(g - want).max())
+            except Exception:
+                err = float("inf")
+            rec.check("bp", "marginal", err <= 1e-6, mech=f"bp:tensor_marginal:{flavour}:differs_from_exact_on_tree",
+                      detail={"err": err, "inds": list(t.inds), "n": n}, sig=("tensor_marginal", flavour, t.ndim))
+        return desc
+    # sampling by decimation: with exact marginals the reported probability omega is
+    # the exact probability of the returned configuration
+    inds = list(tn.ind_map)
+    if rng.random() < 0.5:
+        out = None
+        sampled = inds
+    else:
+        sampled = [ix for ix in inds if rng.random() < 0.5] or inds[:1]
+        out = list(sampled)
+    fn = bp.sample_hd1bp if flavour == "hd1bp" else bp.sample_hv1bp
+    r = gen.attempt2(fn, tn, output_inds=out, tol=1e-11, max_iterations=300, seed=int(rng.integers(1 << 30)))
+    if r is gen.REJECTED:
+        return dict(desc, rejected=True)
+    try:
+        config, tn_config, omega = r
+        omega = float(omega)
+    except Exception:
+        rec.check("bp", "marginal", False, mech=f"bp:sample_{flavour}:malformed_result", detail={}, sig=("sample", flavour))
+        return desc
+    ok_keys = set(config) == set(sampled)
+    rec.check("bp", "marginal", ok_keys, mech=f"bp:sample_{flavour}:sampled_indices_differ_from_requested",
+              detail={"got": sorted(map(str, config)), "want": sorted(map(str, sampled))}, sig=("sample_keys", flavour))
+    if not ok_keys:
+        return desc
+    try:
+        z, _ = refv.value_and_scale(ops_of(tn), exponent_of(tn), (), MAXREF)
+        rec.busy = True
+        try:
+            fixed = tn.isel({ix: int(v) for ix, v in config.items()})
+        finally:
+            rec.busy = False
+        w, _ = refv.value_and_scale(ops_of(fixed), exponent_of(fixed), (), MAXREF)
+        want = float(np.real(w)) / float(np.real(z))
+    except (refv.TooBig, ValueError, MemoryError):
+        return desc
+    err = abs(omega - want) / max(want, 1e-300)
+    rec.check("bp", "marginal", err <= 1e-5, mech=f"bp:sample_{flavour}:probability_differs_from_exact_on_tree",
+              detail={"omega": omega, "want": want, "nsampled": len(sampled), "n": n}, sig=("sample_omega", flavour))
+    return desc
+
+
 def wl_gauge(rng, rec, tier):
     import quimb.tensor.belief_propagation as bp
     dtype = gen.choice(rng, ["float64", "complex128"])
@@ -423,5 +541,6 @@ def wl_gauge(rng, rec, tier):
 WORKLOADS = [
     ("contract", 6, wl_contract),
     ("marginals", 2, wl_marginals),
+    ("index_marginals", 2, wl_index_marginals),
     ("gauge", 2, wl_gauge),
 ]
